@@ -235,35 +235,44 @@ def outputSize (ih iw : Nat) (filters : Nat) (kernel stride padding dilation : N
     | _, _ => .error .arith
   | _, _ => .error .arith
 
-/-- `convolve`: for every filter and output position, the guarded sum over `(c, h, w)` in that order -/
+/-- output extent of `convolve` for an (already padded) `ih × iw` input and a `kh × kw` kernel:
+    `(ih − (kh−1)·d − 1)/s + 1`, checked -/
+def extent (l : Conv α) (ih iw kh kw : Nat) : Except Err (Nat × Nat) :=
+  match checkedSub kh 1, checkedSub kw 1 with
+  | .ok kh1, .ok kw1 =>
+    match checkedSub ih (kh1 * l.dilation.1), checkedSub iw (kw1 * l.dilation.2) with
+    | .ok a, .ok b =>
+      match checkedSub a 1, checkedSub b 1 with
+      | .ok a', .ok b' =>
+        if l.stride.1 = 0 ∨ l.stride.2 = 0 then .error .arith
+        else .ok (a' / l.stride.1 + 1, b' / l.stride.2 + 1)
+      | _, _ => .error .arith
+    | _, _ => .error .arith
+  | _, _ => .error .arith
+
+/-- one output value: the guarded sum over `(c, h, w)` in that order -/
+def convolveAt (l : Conv α) (x k : V3 α) (kc kh kw ih iw height width : Nat) : α :=
+  (List.range kc).foldl (fun sum c =>
+    (List.range kh).foldl (fun sum h =>
+      (List.range kw).foldl (fun sum w =>
+        let _h := height * l.stride.1 + h * l.dilation.1
+        let _w := width * l.stride.2 + w * l.dilation.2
+        if _h < ih ∧ _w < iw then sum + L.get3D 0 k c h w * L.get3D 0 x c _h _w else sum)
+      sum) sum) (0 : α)
+
+/-- `convolve`: for every filter and output position, `convolveAt` -/
 def convolve (l : Conv α) (x : V3 α) (ks : List (V3 α)) : Except Err (V3 α) :=
   match x, kernelDims ks with
   | _, .error e => .error e
   | (r :: m) :: _, .ok (_, kc, kh, kw) =>
     let ih := (r :: m).length
     let iw := r.length
-    match checkedSub kh 1, checkedSub kw 1 with
-    | .ok kh1, .ok kw1 =>
-      match checkedSub ih (kh1 * l.dilation.1), checkedSub iw (kw1 * l.dilation.2) with
-      | .ok a, .ok b =>
-        match checkedSub a 1, checkedSub b 1 with
-        | .ok a', .ok b' =>
-          if l.stride.1 = 0 ∨ l.stride.2 = 0 then .error .arith else
-          let oh := a' / l.stride.1 + 1
-          let ow := b' / l.stride.2 + 1
-          .ok (ks.map (fun k =>
-            (List.range oh).map (fun height =>
-              (List.range ow).map (fun width =>
-                (List.range kc).foldl (fun sum c =>
-                  (List.range kh).foldl (fun sum h =>
-                    (List.range kw).foldl (fun sum w =>
-                      let _h := height * l.stride.1 + h * l.dilation.1
-                      let _w := width * l.stride.2 + w * l.dilation.2
-                      if _h < ih ∧ _w < iw then sum + L.get3D 0 k c h w * L.get3D 0 x c _h _w else sum)
-                    sum) sum) (0 : α)))))
-        | _, _ => .error .arith
-      | _, _ => .error .arith
-    | _, _ => .error .arith
+    match extent l ih iw kh kw with
+    | .error e => .error e
+    | .ok (oh, ow) =>
+      .ok (ks.map (fun k =>
+        (List.range oh).map (fun height =>
+          (List.range ow).map (fun width => convolveAt l x k kc kh kw ih iw height width))))
   | _, _ => .error .index
 
 /-- `Convolution::forward` → `(pre, post)` -/
